@@ -496,3 +496,99 @@ func execC13Twins(t *testing.T, c C13Twins) (v Verdict) {
 }
 
 func TestC13Twins(t *testing.T) { checkProp(t, "C13", "twins", genC13Twins, execC13Twins) }
+
+// ---- C13 lazy: envelopes that were addressed to a call before its caller looked, then the caller goes away --------
+
+// C13Lazy: the scripted peer sends Bodies messages (and possibly the trailer) for a streaming call whose caller has not
+// called Recv yet; the caller's context then ends (cancel or deadline) and only afterwards does the caller receive, a
+// few times. Whatever each receive returns, "a call reports success only with data that the envelopes addressed to it
+// carried": a message the peer sent, in order - or an error.
+type C13Lazy struct {
+	Kind     int  `json:"kind"`
+	Bodies   int  `json:"bodies"`
+	Trailer  bool `json:"trailer"`
+	Deadline bool `json:"deadline"`
+	Ser      bool `json:"ser"`
+	Stats    bool `json:"stats"`
+}
+
+func genC13Lazy(t *rapid.T) C13Lazy {
+	return C13Lazy{Kind: rapid.SampledFrom([]int{kit.KindServer, kit.KindBidi}).Draw(t, "kind"), Bodies: rapid.IntRange(0, 4).Draw(t, "bodies"), Trailer: rapid.Bool().Draw(t, "trailer"), Deadline: rapid.Bool().Draw(t, "deadline"), Ser: rapid.Bool().Draw(t, "ser"), Stats: rapid.IntRange(0, 2).Draw(t, "stats") == 0}
+}
+
+func execC13Lazy(t *testing.T, c C13Lazy) (v Verdict) {
+	type rres struct {
+		data []byte
+		err  error
+	}
+	var results []rres
+	res := kit.Bubble(t, func() {
+		l := kit.NewLink("c0", kit.NewTap(), c.Ser)
+		var dopts []goat.DialOption
+		if c.Stats {
+			dopts = append(dopts, goat.WithStatsHandler(nopStats{}))
+		}
+		cc := goat.NewClientConn(l.A, "c0", kit.ServerName, dopts...)
+		bg := context.Background()
+		ctx, cancel := context.WithCancel(bg)
+		if c.Deadline {
+			ctx, cancel = context.WithTimeout(bg, 50*time.Millisecond)
+		}
+		defer cancel()
+		cs, err := cc.NewStream(ctx, kit.StreamDescFor(c.Kind), kit.FullMethod("s"))
+		if err != nil {
+			v.failf("open: %v", err)
+			return
+		}
+		if c.Kind == kit.KindServer {
+			_ = kit.SendBytes(cs, []byte("rq"))
+			_ = cs.CloseSend()
+		}
+		kit.Settle()
+		var id uint64
+		for _, rq := range l.B.ReadAvailable() {
+			id = rq.GetId()
+		}
+		for b := 0; b < c.Bodies; b++ {
+			e := kit.EnvSpec{Body: &kit.Payload{Class: "lit", Lit: []byte{0xB1, byte(b)}}, Wrap: true}
+			_ = l.B.Write(bg, e.Build(id, kit.FullMethod("s"), kit.ServerName, "c0"))
+			kit.Settle()
+		}
+		if c.Trailer {
+			e := kit.EnvSpec{Status: &kit.StatusSpec{Code: 0, Msg: "OK"}, Trailer: true}
+			_ = l.B.Write(bg, e.Build(id, kit.FullMethod("s"), kit.ServerName, "c0"))
+			kit.Settle()
+		}
+		if c.Deadline {
+			time.Sleep(60 * time.Millisecond)
+		} else {
+			cancel()
+		}
+		kit.Settle()
+		for k := 0; k < c.Bodies+3; k++ {
+			b, err := kit.RecvBytes(cs)
+			results = append(results, rres{append([]byte{}, b...), err})
+		}
+		l.Close()
+		cc.Close()
+		kit.Settle()
+	})
+	if res.Panic != nil {
+		v.failf("panic: %v\n%s", res.Panic, res.Stack)
+	}
+	next := 0
+	for k, r := range results {
+		if r.err != nil {
+			continue
+		}
+		if next >= c.Bodies || !bytes.Equal(r.data, []byte{0xB1, byte(next)}) {
+			v.failf("receive #%d after the caller's context had ended reported success with data %v: not the next of the %d messages the peer had sent (%d were returned before)", k+1, r.data, c.Bodies, next)
+			break
+		}
+		next++
+	}
+	v.Info = kit.CaseInfo{Labels: []string{"lazy-then-gone", fmt.Sprintf("lazy.unread=%d", c.Bodies)}, NonTrivial: c.Bodies >= 1, Key: fmt.Sprintf("%+v", c), Sample: c}
+	return
+}
+
+func TestC13Lazy(t *testing.T) { checkProp(t, "C13", "lazy-then-gone", genC13Lazy, execC13Lazy) }
